@@ -315,7 +315,11 @@ def t_stringValue(t):  # pylint: disable=missing-docstring
     return t
 
 
-identifier_re = fr'([a-zA-Z_]|({utf8Char}))([0-9a-zA-Z_]|({utf8Char}))*'
+# DSP0004 allows U+0080..U+FFEF in identifiers. The MOF text is a unicode
+# string; utf8Char is kept for MOF text whose bytes were mapped to characters.
+ucsChar = '[\u0080-\uFFEF]'
+identifier_re = (fr'([a-zA-Z_]|({utf8Char})|{ucsChar})'
+                 fr'([0-9a-zA-Z_]|({utf8Char})|{ucsChar})*')
 
 
 @lex.TOKEN(identifier_re)
